@@ -42,8 +42,8 @@ func genC01(repo string) (string, error) {
 		}
 	}
 	opt := goast.SkelOpt{
-		Calls:   set("loadTimestamp", "saveTimestamp", "getTSO", "Check", "generateTSO", "LeaderTxn", "Commit", "Store", "Load", "differentiateLogical"),
-		Assigns: set("physical", "logical"), Conds: true, Branches: true, ArgCalls: set("setTSOPhysical")}
+		Calls:   set("loadTimestamp", "getTSO", "Check", "generateTSO", "LeaderTxn", "Commit", "Store", "Load", "differentiateLogical"),
+		Assigns: set("physical", "logical", "save", "next"), Conds: true, Branches: true, ArgCalls: set("setTSOPhysical", "saveTimestamp")}
 	for _, fn := range []string{"setTSOPhysical", "getTSO", "generateTSO", "saveTimestamp", "SyncTimestamp", "resetUserTimestamp", "UpdateTimestamp", "getTS", "ResetTimestamp"} {
 		if err := o.skeleton(ts, "timestampOracle", fn, "skel_"+fn, opt); err != nil {
 			return "", err
